@@ -143,7 +143,7 @@ func TestC16_Seg2Way(t *testing.T) {
 	c.Rule("streams of 1-40 commands (keyspace grammar, PING/ECHO, binary args) encoded as RESP, telnet lines (quoted where needed, some bare-LF), native $n lines, HTTP GET/POST and WebSocket upgrades, optional trailing OPTIONS, at most 8 KB; the uncut parse by PipelineReader.ReadMessages must equal the generator's ground truth and EVERY 2-way cut of the stream must give identical messages (args, conn/output type, auth, accept-encoding), error and written bytes. Non-trivial: the cut falls strictly inside a command; distinct by (protocol, region of the command, protocol of the next element, offset from the command start capped at 48, command name).")
 	c.Exhaustive(true)
 	o := streamOpts{maxCmds: 40, http: true, options: true, binary: true, protos: allProtos, maxBytes: 8192}
-	ev.Rapid("seg-2way", ev.Pick(160, 1500))
+	ev.Rapid("seg-2way", ev.Pick(160, 1000))
 	rapid.Check(t, func(rt *rapid.T) {
 		s := drawStream(rt, o)
 		b, offs := s.Encode()
